@@ -1,5 +1,6 @@
 import JediModel.Proto
 import JediModel.Model.Refactor
+import JediModel.Model.ExtractIO
 import JediModel.Gen.C06
 open Lean Proto JediModel.Text JediModel.Tree JediModel.Refactor
 
@@ -48,6 +49,11 @@ def handle (j : Json) : Json :=
         (chars j "extracted") (optChars j "remaining") with
     | none => jobj [("error", jstr "IndexError")]
     | some m => jobj [("map", jmap m)]
+  | "inputs" =>
+    let occs : List JediModel.ExtractIO.Occ := (arr j "occs").map fun o =>
+      { value := str o "value", isDef := bool o "is_def", augTarget := bool o "aug", outer := bool o "outer" }
+    let st := JediModel.ExtractIO.findInputsOutputs ⟨JediModel.Gen.C06.extractReadsAugTarget⟩ occs
+    jobj [("inputs", jarr (st.inputs.map jstr)), ("outputs", jarr (st.outputs.map jstr))]
   | op => jobj [("error", jstr ("unknown op " ++ op))]
 
 def main : IO Unit := Proto.run handle
